@@ -63,7 +63,11 @@ type SpyMetastore struct {
 	NoYield bool
 	// Mute: calls are served without logging, yielding or faults (used by oracles that read the store).
 	Mute bool
-	objs map[string]*vsched.Obj // one scheduling identity per key id: calls on different ids commute
+	// Cancel, when set together with FaultMode, adds "the caller's context is cancelled during this call" to the
+	// alternatives of every call (the call itself is then answered normally).
+	Cancel    func()
+	Cancelled int
+	objs      map[string]*vsched.Obj // one scheduling identity per key id: calls on different ids commute
 }
 
 func NewSpyMetastore() *SpyMetastore {
@@ -113,6 +117,17 @@ func (m *SpyMetastore) fault(op string, kinds int) int {
 	}
 	if m.FaultMode == 0 {
 		return FaultNone
+	}
+	if m.Cancel != nil {
+		// one more alternative: the caller's context is cancelled while this call is in flight; the store itself ignores
+		// the context and answers normally
+		c := vsched.Choose(kinds+1, "ms."+op)
+		if c == kinds {
+			m.Cancel()
+			m.Cancelled++
+			return FaultNone
+		}
+		return c
 	}
 	return vsched.Choose(kinds, "ms."+op)
 }
@@ -279,9 +294,12 @@ type SpyKMS struct {
 	// EncryptInputRefs keeps the very slices passed to EncryptKey (not copies): after the operation they must be
 	// zero or be the memory of a secret (C10: no readable transient copy of a key outlives the call).
 	EncryptInputRefs [][]byte
-	Metastore        *SpyMetastore // for a common call index with the metastore script, optional
-	NoYield          bool
-	Mute             bool
+	// Cancel: see SpyMetastore.Cancel.
+	Cancel    func()
+	Cancelled int
+	Metastore *SpyMetastore // for a common call index with the metastore script, optional
+	NoYield   bool
+	Mute      bool
 }
 
 func NewSpyKMS() *SpyKMS {
@@ -321,6 +339,15 @@ func (k *SpyKMS) fault(op string) bool {
 	}
 	if k.FaultMode == 0 {
 		return false
+	}
+	if k.Cancel != nil {
+		c := vsched.Choose(3, "kms."+op)
+		if c == 2 {
+			k.Cancel()
+			k.Cancelled++
+			return false
+		}
+		return c != 0
 	}
 	return vsched.Choose(2, "kms."+op) != 0
 }
